@@ -244,7 +244,7 @@ func GenHist(t *rapid.T, p Profile) *HistCase {
 			for k := 0; k < nf; k++ {
 				f := FaultSpec{
 					Point: points[Uniform(t, len(points), "fpoint")],
-					Code:  rapid.SampledFrom([]string{"plain", "unavailable", "internal", "deadline"}).Draw(t, "fcode"),
+					Code:  rapid.SampledFrom([]string{"plain", "unavailable", "internal", "deadline", "enoent", "norows", "eof", "ctxdeadline"}).Draw(t, "fcode"),
 					Nth:   rapid.IntRange(0, 1).Draw(t, "fnth"),
 				}
 				if p.CancelPct > 0 && Pct(t, p.CancelPct, "cancelctx") {
